@@ -177,10 +177,20 @@ def build(targets=None, timeout=3000):
                                cwd=COQ, capture_output=True, text=True)
             if r.returncode != 0:
                 return False, r.stdout + r.stderr
-        cmd = ["timeout", str(timeout), "make", "-f", "Makefile.coq", "-j%d" % NCPU]
+        cmd = ["timeout", str(timeout), "make", "-k", "-f", "Makefile.coq", "-j%d" % NCPU]
         if targets:
             cmd += targets
         r = subprocess.run(cmd, cwd=COQ, capture_output=True, text=True)
+        if r.returncode != 0:
+            # whatever make still considers out of date must not be used in its
+            # old compiled form: remove the stale .vo so dependants fail to load it
+            n = subprocess.run(["make", "-k", "-n", "-f", "Makefile.coq"], cwd=COQ, capture_output=True, text=True)
+            for rel in set(re.findall(r"((?:theories|gen)/[A-Za-z0-9_]+)\.v\b", n.stdout + n.stderr)):
+                for ext in (".vo", ".vos", ".vok", ".glob"):
+                    try:
+                        os.remove(os.path.join(COQ, rel + ext))
+                    except OSError:
+                        pass
         return r.returncode == 0, r.stdout + r.stderr
     finally:
         os.close(fd)
